@@ -557,7 +557,7 @@ class Session:
             if kf is None: continue
             if kf.get('status', 'open') != 'open': continue
             if not fnmatch.fnmatch(oname, kf['obligation']): continue
-            regions.append((kid, kf, eval_region(kf['region'], res, oname)))
+            regions.append((kid, kf, eval_region(kf['region'], res, oname, s.pid)))
         rp = s._replayer(res, spec_fn, pre_fn, unit, fname, mode, oname, side_kind=None if spec_fn else kind)
         if not regions:
             s.prove(oname, goal, hyps, timeout=timeout, solver=solver, kind=kind, functions=functions, bounds=bounds, replay=rp, vars_=vars_, mandatory=mandatory)
@@ -590,12 +590,17 @@ def load_known(pid=None):
         _KF = {}
         if os.path.exists(p):
             for e in json.load(open(p))['findings']: _KF[e['id']] = e
+        d = os.path.join(VERIF, 'known')          # per-property staging files known/CXX.json (same format), merged
+        if os.path.isdir(d):
+            for f in sorted(os.listdir(d)):
+                if f.endswith('.json'):
+                    for e in json.load(open(os.path.join(d, f)))['findings']: _KF[e['id']] = e
     return {k: v for k, v in _KF.items() if pid is None or v['property'] == pid}
 
 def fp_(t): return z3.fpBVToFP(t, FSORT[t.size()])
 def region_ns(res):
     ns = {k: getattr(z3, k) for k in ('ULT', 'ULE', 'UGT', 'UGE', 'And', 'Or', 'Not', 'If', 'Extract', 'BitVecVal', 'fpIsNaN', 'fpIsInf', 'fpLT', 'fpGT',
-                                       'fpLEQ', 'fpGEQ', 'fpEQ', 'fpAbs', 'fpIsZero', 'fpIsSubnormal', 'fpIsNegative', 'FPVal', 'Float32', 'Float64', 'BoolVal', 'LShR', 'RealVal')}
+                                       'fpLEQ', 'fpGEQ', 'fpEQ', 'fpAbs', 'fpIsZero', 'fpIsSubnormal', 'fpIsNegative', 'FPVal', 'Float32', 'Float64', 'BoolVal', 'LShR', 'RealVal', 'URem', 'SRem', 'RotateLeft', 'RotateRight', 'ZeroExt', 'SignExt', 'ToReal', 'ToInt')}
     for i, terms in enumerate(res.ins):
         ns['abcdefgh'[i]] = terms
     def bitat(x, k):
@@ -613,7 +618,12 @@ def region_ns(res):
     ns['sge'] = lambda x, y: x >= y
     ns['slt'] = lambda x, y: x < y
     return ns
-def eval_region(expr, res, oname=''):
+def eval_region(expr, res, oname='', pid=None):
+    if expr.startswith('@'):
+        import importlib
+        mod = importlib.import_module('props.' + pid.lower())
+        m = re.search(r'(\d+)$', oname.replace('.outside-known', ''))
+        return mod.REGIONS[expr[1:]](res, int(m.group(1)) if m else 0)
     ns = region_ns(res)
     m = re.search(r'(\d+)$', oname.replace('.outside-known', ''))
     ns['i'] = int(m.group(1)) if m else 0
